@@ -423,6 +423,21 @@ def corpus(ctx, drv):
                     verify_case(ctx, drv, root, '', False, 'corpus/verify-after')
             finally:
                 trees.rmtree(root)
+    # several TIMESTAMP lines (legal, like duplicate IGNOREs) in a Manifest that a sorting profile rewrites and refreshes
+    for prof in PROFILES:
+        for lines in (['TIMESTAMP 2020-01-01T00:00:00Z', 'TIMESTAMP 2019-06-01T00:00:00Z', 'DATA a 1'],
+                      ['DATA a 1', 'TIMESTAMP 2019-06-01T00:00:00Z', 'TIMESTAMP 2019-06-01T00:00:00Z', 'TIMESTAMP 2021-01-01T00:00:00Z']):
+            for what, p in (('update', ''), ('update', 'sub'), ('verify', '')):
+                root = tree(lines)
+                try:
+                    extra = {'lines': lines}
+                    if what == 'verify':
+                        verify_case(ctx, drv, root, p, True, 'corpus/two-timestamps/verify', extra)
+                    else:
+                        update_case(ctx, drv, root, 'update', p, {'hashes': ['SHA1'], 'profile': prof}, 'corpus/two-timestamps/update-' + prof,
+                                    scen_extra=extra)
+                finally:
+                    trees.rmtree(root)
     # F20: a named pipe called like a Manifest, unregistered / in the place of a registered sub-Manifest: every command ends
     for variant in ('unregistered', 'registered'):
         for what, p in (('update', ''), ('update', 'sub'), ('create', ''), ('verify', '')):
